@@ -1,6 +1,6 @@
 (* C01 - APE values equal the definition, pose by pose. Proofs in Evo.MetricsProofs. *)
 From Coq Require Import Reals List.
-From Evo Require Import Num Linalg LinalgR Lie LieProofs Metrics MetricsProofs NpDsl MetricsTie.
+From Evo Require Import Num Linalg LinalgR Lie LieProofs Metrics MetricsProofs NpDsl MetricsTieApe.
 From EvoGen Require StepsC01.
 From EvoGen Require Import LieGen MetricsGen.
 Import ListNotations.
